@@ -365,8 +365,9 @@ func families(thorough bool) []family {
 	// ---- vsix ----
 	vb := shapes.ZipBase("vsix")
 	fams = append(fams, family{Type: "vsix", PType: "vsix", Ext: ".vsix",
-		Starts: []start{{ID: "vsix/canonical", Build: vb.Build}, {ID: "vsix/fixture:signed-by-ralph", Build: fixed(shapes.Fixture("VSIXProject1.vsix")), Signed: true}},
-		Ops:    stdOps("vsix", crypto.SHA512, "detach-certs", url.Values{}, url.Values{"detach-certs": {"true"}}, thorough, x509Keys),
+		Starts:        []start{{ID: "vsix/canonical", Build: vb.Build}, {ID: "vsix/fixture:signed-by-ralph", Build: fixed(shapes.Fixture("VSIXProject1.vsix")), Signed: true}},
+		Ops:           stdOps("vsix", crypto.SHA512, "detach-certs", url.Values{}, url.Values{"detach-certs": {"true"}}, thorough, x509Keys),
+		SigItemShapes: true,
 		CountSigs: func(p *payload.Payload, data []byte) (int, []string) {
 			return countPrefix(p.SigItems, func(s string) bool { return strings.HasSuffix(s, ".psdsxs") })
 		}})
